@@ -54,12 +54,19 @@ inline unsigned char pat(int serial, size_t i) { return (unsigned char)((serial 
 
 // Kind 0: trivially copyable          1: user copy + dtor (no noexcept move => heap in backmp11)
 //      2: user copy, noexcept move, dtor   3: move noexcept(false)      4: self-referential (stores this)
+//      5: trivially copyable, char members only (alignment 1 and 2 are possible)
 template <size_t N, size_t A, int K> struct alignas(A) Evt;
 
 template <size_t N, size_t A> struct alignas(A) Evt<N, A, 0> {
     int serial; unsigned char bytes[N];
     explicit Evt(int s = 0) : serial(s) { for (size_t i = 0; i < N; ++i) bytes[i] = pat(s, i); }
     bool ok() const { for (size_t i = 0; i < N; ++i) if (bytes[i] != pat(serial, i)) return false; return true; }
+};
+template <size_t N, size_t A> struct alignas(A) Evt<N, A, 5> {
+    struct Ser { unsigned char b[4]; operator int() const { return b[0] | (b[1] << 8) | (b[2] << 16) | (b[3] << 24); } } serial;
+    unsigned char bytes[N];
+    explicit Evt(int s = 0) { for (int i = 0; i < 4; ++i) serial.b[i] = (unsigned char)((unsigned)s >> (8 * i)); for (size_t i = 0; i < N; ++i) bytes[i] = pat(s, i); }
+    bool ok() const { if (reinterpret_cast<uintptr_t>(this) % A != 0) return false; for (size_t i = 0; i < N; ++i) if (bytes[i] != pat(serial, i)) return false; return true; }
 };
 template <size_t N, size_t A, int K> struct alignas(A) TrackedBase {
     int serial; unsigned char bytes[N]; const TrackedBase* self;
